@@ -105,7 +105,13 @@ def build(mesh):
         if mesh.get('centres'): g = with_specified_centres(g, mesh['centres'])
         return g
     if k == 'file':
-        g = mulgrid(os.path.join(repo_dir(), 'tests', 'mulgrid', mesh['name']))
+        path = os.path.join(repo_dir(), 'tests', 'mulgrid', mesh['name'])
+        if mesh.get('read_into_used'):
+            # the geometry is read into an object that already held (and edited) another geometry
+            g = mulgrid(os.path.join(repo_dir(), 'tests', 'mulgrid', 'g7.dat'))
+            with _quiet(): g.refine([g.columnlist[5].name, g.columnlist[6].name])
+            g.read(path)
+        else: g = mulgrid(path)
         with _quiet(): g.check(fix=True, silent=True)
         g.setup_block_name_index(); g.setup_block_connection_name_index()
         return g
@@ -175,44 +181,55 @@ def _sel(g, op, key='columns'):
     return [cl[i].name for i in op.get(key, []) if i < len(cl)]
 
 
-def apply_op(g, op):
-    """returns a short description of what the call did"""
+def op_args(g, op):
+    """the argument objects of the call an op stands for (lists of column / layer NAMES, as a user
+    passes them), built once so that the very same objects can be handed to a second call"""
     nm = op['name']
     cl = g.columnlist
     if nm == 'refine':
         cols = _sel(g, op)
-        edge = [cl[i].name for i in op.get('edge', []) if i < len(cl) and cl[i].name not in cols]
-        if not cols: return 'empty-selection'
+        return {'cols': cols, 'edge': [cl[i].name for i in op.get('edge', []) if i < len(cl) and cl[i].name not in cols]}
+    if nm in ('decompose', 'triangulate'): return {'cols': _sel(g, op)}
+    if nm == 'split':
+        if 'colnames' in op:
+            cand = [n for n in op['colnames'] if n in g.column]
+            if not cand: return {'col': None}
+            col = g.column[cand[op.get('pick', 0) % len(cand)]]
+        else: col = cl[op['column'] % len(cl)] if op.get('wrap') else cl[op['column']]
+        nn = op['node']
+        return {'col': col.name, 'node': col.node[nn].name if 0 <= nn < col.num_nodes else '~~~'}   # '~~~': a node that is not in the column
+    if nm == 'refine_layers':
+        ll = g.layerlist
+        return {'layers': [ll[i].name for i in op.get('layers', []) if 0 < i < len(ll)]}
+    raise ValueError('unknown op %r' % nm)
+
+
+def apply_op(g, op, args=None):
+    """returns a short description of what the call did"""
+    nm = op['name']
+    a = op_args(g, op) if args is None else args
+    if nm == 'refine':
+        if not a['cols']: return 'empty-selection'
         with _quiet() as out:
-            g.refine(cols, bisect=op.get('bisect', False), bisect_edge_columns=edge)
+            g.refine(a['cols'], bisect=op.get('bisect', False), bisect_edge_columns=a['edge'])
         return 'ok'
     if nm == 'decompose':
-        cols = _sel(g, op)
-        with _quiet(): g.decompose_columns(cols)
+        with _quiet(): g.decompose_columns(a['cols'])
         return 'ok'
     if nm == 'triangulate':
-        cols = _sel(g, op)
         with _quiet():
-            for c in cols: g.triangulate_column(c)
+            for c in a['cols']: g.triangulate_column(c)
             # triangulate_column() is the step decompose_columns() applies per column; the caller
             # (here, as decompose_columns does) adds the connections and rebuilds the block indices
             for c in g.missing_connections: g.add_connection(c)
             g.setup_block_name_index(); g.setup_block_connection_name_index()
-        return 'ok' if cols else 'empty-selection'
+        return 'ok' if a['cols'] else 'empty-selection'
     if nm == 'split':
-        if 'colnames' in op:
-            cand = [n for n in op['colnames'] if n in g.column]
-            if not cand: return 'empty-selection'
-            col = g.column[cand[op.get('pick', 0) % len(cand)]]
-        else: col = cl[op['column'] % len(cl)] if op.get('wrap') else cl[op['column']]
-        nn = op['node']
-        nodename = col.node[nn].name if 0 <= nn < col.num_nodes else '~~~'      # a node that is not in the column: returns False
-        with _quiet(): r = g.split_column(col.name, nodename)
+        if a['col'] is None: return 'empty-selection'
+        with _quiet(): r = g.split_column(a['col'], a['node'])
         return 'ok' if r else 'returned-False'
     if nm == 'refine_layers':
-        ll = g.layerlist
-        lays = [ll[i].name for i in op.get('layers', []) if 0 < i < len(ll)]
-        with _quiet(): g.refine_layers(lays, factor=op.get('factor', 2))
+        with _quiet(): g.refine_layers(a['layers'], factor=op.get('factor', 2))
         return 'ok'
     raise ValueError('unknown op %r' % nm)
 
@@ -594,8 +611,18 @@ def check_case(case):
         res['status'] = 'setup-failed: %r' % (e,)
         res['trace'] = traceback.format_exc()[-1500:]
         return res
+    reused = ''
     try:
-        r = apply_op(g, op)
+        args = op_args(g, op)
+        if case.get('twin'):
+            # a model variant (same mesh and names, other topography) is edited first by the same call
+            # with the SAME argument objects (the caller's lists of names); then the geometry under test
+            g2 = build(case['mesh'])
+            set_surfaces(g2, [[i, sf + case['twin'].get('surface_shift', -1.0)] for i, sf in (case.get('surfaces') or [])])
+            for p in case.get('pre', []): apply_op(g2, p)
+            apply_op(g2, op, args)
+            reused = ' [the argument lists of names had first been passed to the same call on another geometry with the same column names]'
+        r = apply_op(g, op, args)
     except Exception as e:
         tb = traceback.format_exc()
         if opname == 'refine' and isinstance(e, TypeError) and 'NoneType' in str(e) and op.get('edge') and op.get('bisect'):
@@ -604,10 +631,12 @@ def check_case(case):
         if type(e).__name__ == 'NamingConventionError':
             # more columns / layers than the geometry's naming convention can name: a capacity limit (C17), not C11
             res['status'] = 'naming-capacity-exceeded'; return res
-        res['failures'].append({'key': '%s:exception' % opname, 'observed': 'raised %r\n%s' % (e, tb[-800:]), 'required': 'the operation completes'})
+        res['failures'].append({'key': '%s:exception' % opname, 'observed': 'raised %r%s\n%s' % (e, reused, tb[-800:]), 'required': 'the operation completes'})
         return res
     res['status'] = r
     F, st = compare(before, g, opname, rng, npts=case.get('npts', 6), lattice=case.get('lattice', 0))
+    if reused:
+        for f in F: f['observed'] += reused
     if op['name'] == 'refine_layers' and not F:
         # the layer structure: same top and bottom, selected layers split in `factor` equal parts
         b, a = before.layers, [(l.name, float(l.bottom), float(l.top)) for l in g.layerlist]
